@@ -89,7 +89,14 @@ impl<'de, 'a> Deserializer<'de> for StrDe<'a> {
     fn deserialize_any<Vi: Visitor<'de>>(self, visitor: Vi) -> Result<Vi::Value, E> {
         visitor.visit_str(self.0)
     }
-    fwd_all_but_any!();
+    fn deserialize_newtype_struct<Vi: Visitor<'de>>(self, _n: &'static str, visitor: Vi) -> Result<Vi::Value, E> {
+        visitor.visit_newtype_struct(self)
+    }
+    fn deserialize_option<Vi: Visitor<'de>>(self, visitor: Vi) -> Result<Vi::Value, E> {
+        visitor.visit_some(self)
+    }
+    forward_to_deserialize_any! { bool u8 u16 u32 u64 i8 i16 i32 i64 i128 u128 f32 f64 char str string unit seq
+    bytes byte_buf map unit_struct tuple_struct struct tuple identifier enum ignored_any }
 }
 
 // ---- scalars -----------------------------------------------------------------------------------------
@@ -485,4 +492,45 @@ pub const EMPTY0: Obj<'static, 0> = Obj { keys: [], vals: [] };
 /// Decode `T` from a document.
 pub fn decode<'de, T: serde::Deserialize<'de>, D: Deserializer<'de, Error = E>>(d: D) -> Result<T, E> {
     T::deserialize(d)
+}
+
+// ---- { k1: "s1", .. }: flat object of STRING values ---------------------------------------------------
+
+#[derive(Clone, Copy)]
+pub struct StrObj<'a, const K: usize> {
+    pub keys: [&'a str; K],
+    pub vals: [&'a str; K],
+}
+
+pub struct StrObjAcc<'a, const K: usize> {
+    o: StrObj<'a, K>,
+    i: usize,
+}
+
+impl<'de, 'a, const K: usize> MapAccess<'de> for StrObjAcc<'a, K> {
+    type Error = E;
+    fn next_key_seed<S: DeserializeSeed<'de>>(&mut self, seed: S) -> Result<Option<S::Value>, E> {
+        if self.i < K {
+            seed.deserialize(StrDe(self.o.keys[self.i])).map(Some)
+        } else {
+            Ok(None)
+        }
+    }
+    fn next_value_seed<S: DeserializeSeed<'de>>(&mut self, seed: S) -> Result<S::Value, E> {
+        let v = self.o.vals[self.i];
+        self.i += 1;
+        seed.deserialize(StrDe(v))
+    }
+}
+
+impl<'de, 'a, const K: usize> Deserializer<'de> for StrObj<'a, K> {
+    type Error = E;
+    fn deserialize_any<Vi: Visitor<'de>>(self, visitor: Vi) -> Result<Vi::Value, E> {
+        visitor.visit_map(StrObjAcc { o: self, i: 0 })
+    }
+    fn deserialize_ignored_any<Vi: Visitor<'de>>(self, visitor: Vi) -> Result<Vi::Value, E> {
+        visitor.visit_unit()
+    }
+    forward_to_deserialize_any! { bool u8 u16 u32 u64 i8 i16 i32 i64 i128 u128 f32 f64 char str string unit seq
+    bytes byte_buf map unit_struct newtype_struct tuple_struct struct tuple identifier option enum }
 }
